@@ -487,7 +487,8 @@ def main():
         rp = json.load(open(chk.replay))["replay"]
         ctxs = ([rp["context"]] if isinstance(rp.get("context"), dict) else []) + base_ctxs
         aux = dict(base_aux); aux.update(REC_AUX); aux.update(MT_AUX); aux.update(rp.get("aux") or {})
-        add("replay", rp["template"], ctxs=ctxs, aux=aux, sentinel=None, main=rp.get("main", "main"))
+        exp = [tuple(rp["expected"])] if isinstance(rp.get("expected"), list) and isinstance(rp.get("context"), dict) else [None]
+        add("replay", rp["template"], ctxs=ctxs, aux=aux, sentinel=None, main=rp.get("main", "main"), expect=(exp + [None] * len(ctxs))[:len(ctxs)])
     else:
         depth = 3 if chk.thorough else 2
         for i, t in enumerate(nestings(depth)):
@@ -795,6 +796,8 @@ def main():
             continue
         seen.add(ti)
         r = replay_of(ti, ci); r.update({"profile": "release" if rel else "debug", "observed": detail, "family": T[ti]["name"]})
+        if ci < len(T[ti]["expect"]) and T[ti]["expect"][ci] is not None:
+            r["expected"] = list(T[ti]["expect"][ci])
         chk.violation(what, r)
     nrej = 0
     for k, v in rejected:
